@@ -130,6 +130,10 @@ func c03Crash(r *rng, id string) {
 		crashAt[i] = time.Duration(r.intn(20000)) * time.Millisecond
 	}
 	mon := cl.startMonitor()
+	hangs := map[int]bool{}
+	for i := range crashAt {
+		hangs[i] = c.tcpPings && r.chance(1, 3)
+	}
 	go cl.joinAll(400 * time.Millisecond)
 	takeover := r.chance(1, 3)
 	var extra []*simNode
@@ -156,9 +160,13 @@ func c03Crash(r *rng, id string) {
 		now := cl.since()
 		for i, t := range crashAt {
 			if !cl.nodes[i].crashed && now >= t {
-				cl.nodes[i].crash()
+				if hangs[i] {
+					cl.nodes[i].hang() // stops responding but keeps its listening socket (a frozen process)
+				} else {
+					cl.nodes[i].crash()
+				}
 				crashTime[cl.nodes[i].name] = now
-				if takeover && now > 6*time.Second {
+				if takeover && now > 6*time.Second && !hangs[i] {
 					// a new member under another name takes over the crashed member's address and port
 					cl.net.mu.Lock()
 					delete(cl.net.nodes, cl.nodes[i].tr.addr)
